@@ -163,11 +163,22 @@ def make_case(k, r, c, vals, rng, stream):
     for pos, v in enumerate(vals):
         d, t, m, sp = render_index(v, "pq"[pos], rng, shape_for_matrix_mask=(r, c) if len(vals) == 1 else None)
         defs += d; texts.append(t); models.append(m); spell.append(sp)
-    stmts = [xdef] + defs + ["x[" + ",".join(texts) + "]", "x"]
+    ixs = ",".join(texts)
+    readpos = len(defs) + 1
+    scope = "top-level"
+    if rng.random() < 0.12:
+        # the read happens inside a match arm whose pattern variable `z` holds x and SHADOWS a global `z` of the same kind
+        # and shape with other contents: `name[...]` must resolve the name like a bare `name` does (local bindings first)
+        decoy = ms.define_matrix("z", k, r, c, list(reversed(data)))
+        stmts = [xdef] + defs + [decoy, "x? | z => z[%s] | * => x[%s]." % (ixs, ixs), "x"]
+        readpos += 1
+        scope = "match-arm-shadowing"
+    else:
+        stmts = [xdef] + defs + ["x[" + ixs + "]", "x"]
     forms = "".join(v[0] for v in vals)
     good = all(v[2] for v in vals)
-    tags = dict(stream=stream, forms=forms, kind=k, shape="%dx%d" % (r, c), inrange=good, spelling="/".join(spell))
-    return dict(sx=sx(["c03", xsx, models, len(defs) + 1]), impl=dict(stmts=stmts), tags=tags, src="\n".join(stmts))
+    tags = dict(stream=stream, forms=forms, kind=k, shape="%dx%d" % (r, c), inrange=good, spelling="/".join(spell), scope=scope)
+    return dict(sx=sx(["c03", xsx, models, readpos]), impl=dict(stmts=stmts), tags=tags, src="\n".join(stmts))
 
 
 def pick_pairs(vi, vj, rng, per_pair):
